@@ -1,17 +1,23 @@
 (* C10 — shape of the generated cases and the two executable verdicts. No proofs. *)
-From Coq Require Import String Ascii.
+From Coq Require Import Uint63.
 From VLib Require Import CaseLib.
 From C10 Require Import Model Spec.
 
-(* bytes are written as hex strings in the case files (numeral lists parse slowly) *)
-Definition hexval (c : ascii) : N :=
-  let n := N_of_ascii c in
-  if N.leb 97 n then (n - 87)%N else if N.leb 65 n then (n - 55)%N else (n - 48)%N.
-Fixpoint hx (s : string) : list N :=
-  match s with
-  | String a (String b r) => (16 * hexval a + hexval b)%N :: hx r
-  | _ => []
+(* bytes are written in the case files as primitive 63-bit integers 0x01 b1 .. bk (k <= 7): lists of
+   N numerals, string literals and big numerals all elaborate too slowly for thousands of bodies.
+   Only the decoding of the case files uses primitive integers; model, spec and theorems do not. *)
+Definition bitN (x i : int) (w : N) : N := if is_zero (x land (1 << i))%uint63 then 0%N else w.
+Definition byte_of (x : int) : N :=
+  (bitN x 0 1 + bitN x 1 2 + bitN x 2 4 + bitN x 3 8 + bitN x 4 16 + bitN x 5 32 + bitN x 6 64 + bitN x 7 128)%N.
+Fixpoint chunk_bytes (fuel : nat) (x : int) (acc : list N) : list N :=
+  match fuel with
+  | O => acc
+  | S f => if (x =? 1)%uint63 then acc else chunk_bytes f (x >> 8)%uint63 (byte_of x :: acc)
   end.
+Definition hx (l : list int) : list N := flat_map (fun x => chunk_bytes 8 x []) l.
+
+(* table entry of a line without time fields *)
+Definition nof (c : cls) : docinfo := {| d_cls := c; d_fields := []; d_intended := None |}.
 
 Definition bytes_eqb : list N -> list N -> bool := list_eqb N.eqb.
 
